@@ -887,6 +887,16 @@ Theorem refuses_malformed_row : forall hdr recs,
   start true [] (Some (hdr :: recs)) = (false, []).
 Proof. intros hdr recs H. apply refused_nothing_left, refuses_malformed_row_old, H. Qed.
 
+(* ... at ANY index: in particular the first row of a batch (index k * bsz), where the batch that
+   fails has made no progress at all *)
+Theorem refuses_bad_row_any_index : forall hdr recs i bad,
+  nth_error recs i = Some bad -> good_record (List.length hdr) bad = false ->
+  start true [] (Some (hdr :: recs)) = (false, []).
+Proof.
+  intros hdr recs i bad Hn Hb. apply refuses_malformed_row. apply Exists_exists.
+  exists bad. split; [eapply nth_error_In; exact Hn|exact Hb].
+Qed.
+
 Theorem refuses_missing_file : start true [] None = (false, []) /\ start true [] (Some []) = (false, []).
 Proof. split; reflexivity. Qed.
 
@@ -982,6 +992,15 @@ Proof. vm_compute. reflexivity. Qed.
 Example demo_wrong_count :
   startup (fun _ => 8%N) 2 0 8%N demo_genesis true [] (Some demo_good_file) = (false, []).
 Proof. vm_compute. reflexivity. Qed.
+
+(* batches of 2, the malformed record is the first one of the second batch, the checkpoint (height 0) is
+   below it and matches: refused by the reader alone, nothing stays *)
+Example demo_bad_first_row_of_batch :
+  startup demo_hash 2 0 8%N demo_genesis true []
+    (Some [header_line; demo_rec "7"; demo_rec "8"; demo_rec "x"; demo_rec "9"]%string) = (false, []) /\
+  fst (startup demo_hash 2 0 8%N demo_genesis true []
+    (Some [header_line; demo_rec "7"; demo_rec "8"]%string)) = true.
+Proof. split; vm_compute; reflexivity. Qed.
 
 Example demo_refused_forms :
   parse_int 32 "2147483648" = None /\ parse_int 32 "-2147483648" = Some (- 2 ^ 31) /\ parse_int 32 "+7" = Some 7 /\
